@@ -12,7 +12,12 @@ extracted design, and `staticOk_sound`/`cycleOk_sound` turn a `true` into those 
 Proved here about the executable model itself (∀ inputs): the two `exclusive_with`
 transcriptions agree (`exclusiveWith_agree`), `callPathsExclusive` agrees with `cpe` on chains
 (`cpe_agree`), the two multiplexer transcriptions agree (`oneHotMux_agree`).
-NOT proved (remains a per-design driver check): `CoreModel.elaborate D = ok E → staticOk D E order`.
+Proved in the follow-up files (`BridgeValidate`, `BridgeCgr`, `BridgeMain`, `BridgeExplicit`,
+`BridgeOrder`): `CoreModel.elaborate D = ok E` together with the executable order check establishes
+`Accepted`, `ValidOrder` and `SitesNodup` for `toAbs D` / `toSched E order` (`elaborate_static`).
+`CgrSources` for the model's graph is proved in `BridgeSources` (`elaborate_cgrSources`).
+NOT proved: the per-cycle facts (`cycleOk`: ExclSem, ExclReady, the method-run and scheduler
+equations for the run assignment) — they are evaluated by the driver on every valuation.
 -/
 namespace TxV.Core.Bridge
 open TxV
